@@ -22,7 +22,7 @@ def fields (r : Parsed) (sep : String) (withUi : Bool) : String :=
   sep ++ "port=" ++ (match r.port with | some p => toString p | none => "none") ++
   sep ++ "path=" ++ Bytes.toHex (pathOut r)
 
-def show (cfg : Config) (m : Method) (url : Bytes) : String :=
+def render (cfg : Config) (m : Method) (url : Bytes) : String :=
   match parse cfg Ip.classify m url with
   | .reject c => "reject:" ++ c
   | .unmodelled w => "unmodelled:" ++ w
@@ -42,7 +42,7 @@ def handle (line : String) : String :=
       if ad.contains 0 then "bad-line"
       else
         match cfgOf flags ad with
-        | some cfg => show cfg (methodOf meth) url
+        | some cfg => render cfg (methodOf meth) url
         | none => "bad-line"
     | _, _ => "bad-line"
   | ["I", h] =>
